@@ -220,6 +220,7 @@ func runC18(c *Ctx) {
 	c.c18RunsDoNotOverlap()
 	c.c18PiecesAreTheBytesWritten()
 	c.c18CallersLoggersAreLeftOpen()
+	c.c18TranslatorsAreFresh()
 	// M17: "otherwise an error (of context kind if it was cancelled)": Execute reports the end of its context through
 	// parallelisation.DetermineContextError — which reads ctx.Err(), not context.Cause (the obligation C12/T7 = C14/O10 =
 	// C09/A19, evaluated here for the packages Execute's verdict goes through).
@@ -1071,5 +1072,53 @@ func (c *Ctx) c18CallersLoggersAreLeftOpen() {
 	}
 	if n == 0 {
 		c.info("M16", "subprocess/no-logger-is-closed", "-", "package subprocess closes no logger")
+	}
+}
+
+// c18TranslatorsAreFresh (M18): "Execute returns nil exactly when the child exits with status 0 …; every line the child
+// writes reaches the logger". What is run is the command the caller named, translated by the CommandAsDifferentUser it is
+// handed — command.Me() for every Execute / Output / Setup. That object is mutable (Prepend rewrites its receiver and
+// returns it, and the library itself writes platform.WithPrivileges(command.Me())): the constructors of the package hand
+// out a value of their own making on every call, never a package-level one — a shared Me() once decorated with sudo (or
+// anything) is what every later Execute in the process runs.
+func (c *Ctx) c18TranslatorsAreFresh() {
+	c.rule("M18", "the constructors of package subprocess/command return a CommandAsDifferentUser built by that very call: no returned pointer is (or derives from) a package-level variable", 2)
+	for _, f := range c.srcFuncs("subprocess/command") {
+		if f.Blocks == nil || f.Signature.Recv() != nil || f.Signature.Results().Len() != 1 || !strings.HasSuffix(f.Signature.Results().At(0).Type().String(), "command.CommandAsDifferentUser") {
+			continue
+		}
+		c.FuncsSeen[fname(f)] = true
+		bad := ""
+		var walk func(v ssa.Value, g *ssa.Function, depth int)
+		walk = func(v ssa.Value, g *ssa.Function, depth int) {
+			if depth > 3 {
+				return
+			}
+			for _, l := range sources(v, deriveOpts{}) {
+				switch x := l.(type) {
+				case *ssa.UnOp:
+					if gl, ok := x.X.(*ssa.Global); ok {
+						bad = c.ipos(x) + " (" + gl.Name() + ")"
+					}
+				case *ssa.Global:
+					bad = c.pos(x.Pos()) + " (" + x.Name() + ")"
+				case *ssa.Call:
+					if h := staticCallee(&x.Call); h != nil && inPkg("subprocess/command")(h) && h.Blocks != nil {
+						allInstrs(h, func(in ssa.Instruction) {
+							if r, ok := in.(*ssa.Return); ok && len(r.Results) == 1 {
+								walk(r.Results[0], h, depth+1)
+							}
+						})
+					}
+				}
+			}
+		}
+		allInstrs(f, func(in ssa.Instruction) {
+			if r, ok := in.(*ssa.Return); ok && len(r.Results) == 1 {
+				walk(r.Results[0], f, 0)
+			}
+		})
+		c.check(bad == "", "M18", fname(f)+"/a-value-of-its-own-making", c.pos(f.Pos()), "the translator returned is built by the call",
+			"the translator returned is the package-level variable read at "+bad+": CommandAsDifferentUser is mutable (Prepend rewrites its receiver; platform.WithPrivileges(command.Me()) prepends sudo) and Me() is the translator of every Execute / Output / Setup — once anything has decorated the shared value, every later Execute in the process runs `x cmd …` instead of `cmd …`: the status and the lines it reports are those of another command")
 	}
 }
